@@ -3,6 +3,11 @@
 use crate::engine::DynSub;
 
 pub mod c01;
+pub mod c02;
+pub mod c08;
+pub mod c09;
+pub mod c10;
+pub mod c18;
 
 pub struct PropDef {
     pub id: &'static str,
@@ -19,13 +24,25 @@ pub const COMMON_ASSUMPTIONS: [&str; 3] = [
     "release profile (debug assertions and overflow checks off) unless the evidence says otherwise",
 ];
 
-pub fn ids() -> Vec<&'static str> {
-    vec!["C01"]
+macro_rules! registry {
+    ($($id:literal => $m:ident),* $(,)?) => {
+        pub fn ids() -> Vec<&'static str> {
+            vec![$($id),*]
+        }
+        pub fn get(id: &str) -> Option<PropDef> {
+            match id {
+                $($id => Some($m::def()),)*
+                _ => None,
+            }
+        }
+    };
 }
 
-pub fn get(id: &str) -> Option<PropDef> {
-    match id {
-        "C01" => Some(c01::def()),
-        _ => None,
-    }
+registry! {
+    "C01" => c01,
+    "C02" => c02,
+    "C08" => c08,
+    "C09" => c09,
+    "C10" => c10,
+    "C18" => c18,
 }
